@@ -1,95 +1,10 @@
-import Driver.Util
-import Sonic.Spec.WsFrame
+import Driver.WsDecodeSpec
 import Sonic.Model.WsEncode
 
-/-! Trace acceptor for the harness component `wsdecode` (C07): model of `FrameCodec.Decode` over the
-ByteBuffer model, and the RFC 6455 monitor. -/
+/-! Model acceptor for the harness component `wsdecode` (C07): the model of `FrameCodec.Decode` over the ByteBuffer
+model follows the trace; the monitor and the script loop are those of `Driver/WsDecodeSpec.lean`. -/
 namespace Driver.WsDecode
-open Sonic.Spec.WsFrame Sonic.Model.WsBuf Sonic.Model.WsFrame
-
-def hexVal (c : Char) : Option Nat :=
-  if '0' ≤ c ∧ c ≤ '9' then some (c.toNat - '0'.toNat)
-  else if 'a' ≤ c ∧ c ≤ 'f' then some (c.toNat - 'a'.toNat + 10)
-  else none
-
-def unhexAux : List Char → List UInt8 → Option (List UInt8)
-  | [], acc => some acc.reverse
-  | [_], _ => none
-  | a :: b :: r, acc => do
-    let x ← hexVal a
-    let y ← hexVal b
-    unhexAux r (UInt8.ofNat (x * 16 + y) :: acc)
-
-def unhex (s : String) : Option (List UInt8) :=
-  if s = "-" then some [] else unhexAux s.toList []
-
-def hexDigit (n : Nat) : Char := if n < 10 then Char.ofNat (48 + n) else Char.ofNat (87 + n)
-
-def hex (l : List UInt8) : String :=
-  if l.isEmpty then "-" else
-  String.ofList (l.foldr (fun b acc => hexDigit (b.toNat / 16) :: hexDigit (b.toNat % 16) :: acc) [])
-
-def bool? (s : String) : Option Bool := if s = "1" then some true else if s = "0" then some false else none
-
-/-- A parsed script operation. -/
-inductive SOp where
-  | new (max reserve : Int)
-  | feed (bs : List UInt8)
-  | read (bs : List UInt8)
-  | decode
-  | encfeed (f : Frame) (opcode : Nat)    -- opcode as given to SetOpcode (0..255)
-
-def parseOp : List String → Option SOp
-  | ["new", m, r] => do pure (.new (← int? m) (← int? r))
-  | ["feed", h] => (unhex h).map .feed
-  | ["read", h] => (unhex h).map .read
-  | ["decode"] => some .decode
-  | ["encfeed", fin, r1, r2, r3, op, m, mask, p] => do
-      let op ← op.toNat?
-      let masked ← bool? m
-      let mask ← if masked then unhex mask else some []
-      pure (.encfeed { fin := ← bool? fin, rsv1 := ← bool? r1, rsv2 := ← bool? r2, rsv3 := ← bool? r3, opcode := op % 16,
-                       masked := masked, mask := mask, payload := ← unhex p } op)
-  | _ => none
-
-structure Lens where
-  save : Int
-  read : Int
-  write : Int
-  reserved : Int
-  deriving DecidableEq
-
-inductive Out where
-  | out (o : Outcome)
-  | wire (bs : List UInt8)
-  deriving DecidableEq
-
-def parseLens : List String → Option Lens
-  | ["buf", a, b, c, d] => do pure ⟨← int? a, ← int? b, ← int? c, ← int? d⟩
-  | _ => none
-
-/-- `<` line → (outcome, region lengths). -/
-def parseObs : List String → Option (Out × Option Lens)
-  | ["panic"] => some (.out .panic, none)
-  | "ok" :: r => do pure (.out .ok, ← parseLens r)
-  | "n" :: k :: r => do pure (.out (.took (← k.toNat?)), ← parseLens r)
-  | "needmore" :: r => do pure (.out .needMore, ← parseLens r)
-  | "err" :: "toobig" :: r => do pure (.out .tooBig, ← parseLens r)
-  | "err" :: _ :: r => do pure (.out .other, (parseLens r))
-  | "wire" :: h :: r => do pure (.wire (← unhex h), ← parseLens r)
-  | "frame" :: fin :: r1 :: r2 :: r3 :: op :: m :: mask :: len :: p :: r => do
-      let f : Frame := { fin := ← bool? fin, rsv1 := ← bool? r1, rsv2 := ← bool? r2, rsv3 := ← bool? r3, opcode := ← op.toNat?,
-                         masked := ← bool? m, mask := ← unhex mask, payload := ← unhex p }
-      pure (.out (.frame f (← len.toNat?)), ← parseLens r)
-  | _ => none
-
-def showOutcome : Outcome → String
-  | .ok => "ok" | .took n => s!"n {n}" | .needMore => "needmore" | .tooBig => "err toobig" | .panic => "panic" | .other => "err other"
-  | .frame f size => s!"frame fin={f.fin} rsv={f.rsv1},{f.rsv2},{f.rsv3} op={f.opcode} masked={f.masked} mask={hex f.mask} len={size} payload={hex (f.payload.take 24)}{if f.payload.length > 24 then "…" else ""}({f.payload.length})"
-
-def showOut : Out → String
-  | .out o => showOutcome o
-  | .wire bs => s!"wire {hex (bs.take 32)}({bs.length})"
+open Sonic.Spec.WsFrame Sonic.Model.WsBuf Sonic.Model.WsFrame Driver.WsDecodeSpec
 
 /-! ### Model side -/
 
@@ -99,8 +14,6 @@ structure MState where
 
 def lensOf (b : Buf) : M Lens := do
   pure ⟨← b.SaveLen, ← b.ReadLen, ← b.WriteLen, b.Reserved⟩
-
-def showLens (l : Lens) : String := s!"buf {l.save} {l.read} {l.write} {l.reserved}"
 
 def showPanic : Panic → String
   | .sliceBounds => "panic(slice bounds)" | .indexRange => "panic(index)" | .outsideReceived => "reads outside the received bytes"
@@ -147,120 +60,32 @@ def mstep (m : MState) (op : SOp) (cap' : Int) : M (MState × Out × List String
       let b ← m.c.buf.Write w cap'
       pure ({ m with c := { m.c with buf := b } }, .wire w, ["encfeed"])
 
-/-! ### Monitor side -/
+/-- Follow one operation with the model and compare with what the implementation printed. -/
+def hookStep (ms : MState) (op : SOp) (cap : Int) (out : Out) (lens : Option Lens) (i : Nat) (res : Driver.Result) :
+    Option MState × Driver.Result :=
+  match out, lens with
+  | .out .panic, _ =>
+    match mstep ms op cap with
+    | .error e => (none, if e = .env then res else { res with tags := Driver.addTag res.tags "panic" })
+    | .ok (_, mo, _) => (none, { res with modelDiff := res.modelDiff <|> some (i, s!"impl=[panic] model=[{showOut mo}]") })
+  | _, some l =>
+    match mstep ms op cap with
+    | .error .env =>
+      (none, { res with envBad := res.envBad <|> some (i, s!"capacity {cap} is not one the model's Reserve/Write allows here") })
+    | .error e =>
+      (none, { res with modelDiff := res.modelDiff <|> some (i, s!"impl=[{showOut out}] model=[{showPanic e}]") })
+    | .ok (ms', mo, tags) =>
+      match lensOf ms'.c.buf with
+      | .ok ml =>
+        if ms'.c.buf.cap ≠ cap then
+          (none, { res with envBad := res.envBad <|> some (i, s!"capacity {cap} reported, the model has {ms'.c.buf.cap} (growth the model does not perform, or none where it does)") })
+        else if mo ≠ out ∨ ml ≠ l then
+          (none, { res with modelDiff := res.modelDiff <|> some (i, s!"impl=[{showOut out} {showLens l}] model=[{showOut mo} {showLens ml}]") })
+        else (some ms', { res with tags := tags.foldl Driver.addTag res.tags })
+      | .error e => (none, { res with modelDiff := res.modelDiff <|> some (i, s!"model region lengths: {showPanic e}") })
+  | _, none => (some ms, res)
 
-structure SpecState where
-  s : S
-  /-- `decode ∘ encode`: frames the library's encoder produced whose bytes are still ahead of the decoder,
-  with the number of fed bytes that precede each. -/
-  expect : List (Nat × Frame) := []
-  fed : Nat := 0          -- bytes given to the decoder so far
-  consumed : Nat := 0     -- bytes of yielded frames
-
-def sstep (st : SpecState) (op : SOp) (out : Out) (l : Lens) : Except String SpecState :=
-  let len := l.save + l.read + l.write
-  let run (sop : Op) (o : Outcome) (k : S → SpecState) : Except String SpecState :=
-    match step st.s sop ⟨o, len, l.reserved⟩ with
-    | some s' => .ok (k s')
-    | none => .error (explain st.s sop ⟨o, len, l.reserved⟩)
-  match op, out with
-  | .new max _, .out .ok => .ok { s := init max }
-  | .feed bs, .out o => run (.feed bs) o fun s' => { st with s := s', fed := st.fed + bs.length }
-  | .read bs, .out o => run (.read bs) o fun s' => { st with s := s', fed := st.fed + (match o with | .took n => n | _ => 0) }
-  | .encfeed f _, .wire w =>
-      match step st.s (.feed w) ⟨.ok, len, l.reserved⟩ with
-      | some s' => .ok { st with s := s', fed := st.fed + w.length, expect := st.expect ++ [(st.fed, f)] }
-      | none => .error (explain st.s (.feed w) ⟨.ok, len, l.reserved⟩)
-  | .decode, .out o =>
-      match step st.s .decode ⟨o, len, l.reserved⟩ with
-      | none => .error (explain st.s .decode ⟨o, len, l.reserved⟩)
-      | some s' =>
-        match o with
-        | .frame f size =>
-          -- the frame that starts where an encoder output starts must be the frame that was encoded
-          let here := st.consumed
-          let expect := st.expect.filter (fun e => e.1 > here)
-          match st.expect.find? (fun e => e.1 = here) with
-          | some (_, g) =>
-            if g = f then .ok { st with s := s', consumed := here + size, expect := expect }
-            else .error "key=wsdecode.decode-encode decoding the encoder's output returned a different frame"
-          | none => .ok { st with s := s', consumed := here + size, expect := expect }
-        | _ => .ok { st with s := s' }
-  | _, .out .panic => .error "key=wsdecode.panic the call panicked"
-  | _, _ => .error "key=wsdecode.outcome unexpected kind of result for this operation"
-
-/-! ### Script loop -/
-
-def checkWith (withModel : Bool) (sc : Driver.Script) : Driver.Result := Id.run do
-  let mut res : Driver.Result := {}
-  let mut m : Option MState := none
-  let mut s : Option SpecState := none
-  let mut pending : Option SOp := none
-  let mut cap : Int := 0
-  let mut i := 0
-  for ln in sc.lines do
-    i := i + 1
-    if ln.kind == '!' then
-      match parseOp ln.toks with
-      | some op =>
-        pending := some op; res := { res with ops := res.ops + 1 }
-        if let .new _ _ := op then
-          m := if withModel then some { c := Codec.new Buf.new 0, backlog := [] } else none
-          s := some { s := init 0 }
-      | none => pending := none; res := { res with envBad := res.envBad <|> some (i, s!"unparsable operation: {ln.raw.take 80}") }
-    else if ln.kind == '?' then
-      match ln.toks with
-      | ["cap", n] => cap := (int? n).getD 0
-      | _ => res := { res with envBad := res.envBad <|> some (i, s!"unknown environment line: {ln.raw.take 80}") }
-    else if ln.kind == '<' then
-      match pending, parseObs ln.toks with
-      | some op, some (out, lens) =>
-        pending := none
-        -- model
-        if let some ms := m then
-          match out, lens with
-          | .out .panic, _ =>
-            match mstep ms op cap with
-            | .error e => if e = .env then pure () else
-                res := { res with tags := Driver.addTag res.tags "panic" }
-            | .ok (_, mo, _) => res := { res with modelDiff := res.modelDiff <|> some (i, s!"impl=[panic] model=[{showOut mo}]") }
-            m := none
-          | _, some l =>
-            match mstep ms op cap with
-            | .error .env =>
-              res := { res with envBad := res.envBad <|> some (i, s!"capacity {cap} is not one the model's Reserve/Write allows here") }
-              m := none
-            | .error e =>
-              res := { res with modelDiff := res.modelDiff <|> some (i, s!"impl=[{showOut out}] model=[{showPanic e}]") }
-              m := none
-            | .ok (ms', mo, tags) =>
-              match lensOf ms'.c.buf with
-              | .ok ml =>
-                if ms'.c.buf.cap ≠ cap then
-                  res := { res with envBad := res.envBad <|> some (i, s!"capacity {cap} reported, the model has {ms'.c.buf.cap} (growth the model does not perform, or none where it does)") }
-                  m := none
-                else if mo ≠ out ∨ ml ≠ l then
-                  res := { res with modelDiff := res.modelDiff <|> some (i, s!"impl=[{showOut out} {showLens l}] model=[{showOut mo} {showLens ml}]") }
-                  m := none
-                else
-                  m := some ms'
-                  res := { res with tags := tags.foldl Driver.addTag res.tags }
-              | .error e =>
-                res := { res with modelDiff := res.modelDiff <|> some (i, s!"model region lengths: {showPanic e}") }
-                m := none
-          | _, none => pure ()
-        -- monitor
-        if let some st := s then
-          match sstep st op out (lens.getD ⟨0, 0, 0, 0⟩) with
-          | .ok st' => s := some st'
-          | .error d =>
-            res := { res with specFail := some (i, s!"{d}; op=[{ln.raw.take 0}{match op with | .decode => "decode" | .feed _ => "feed" | .read _ => "read" | .new _ _ => "new" | .encfeed _ _ => "encfeed"}] obs=[{showOut out}] pending={hex (st.s.pending.take 16)}({st.s.pending.length}) max={st.s.max}") }
-            s := none
-      | _, none => res := { res with envBad := res.envBad <|> some (i, s!"unparsable result line: {ln.raw.take 80}") }
-      | none, _ => pure ()
-  return res
-
-def check (sc : Driver.Script) : Driver.Result := checkWith true sc
-def checkSpec (sc : Driver.Script) : Driver.Result := checkWith false sc
+def check (sc : Driver.Script) : Driver.Result :=
+  checkWith (some { init := ({ c := Codec.new Buf.new 0, backlog := [] } : MState), step := hookStep }) sc
 
 end Driver.WsDecode
